@@ -299,6 +299,28 @@ func genSurface() {
 	g.line("Definition director_passes_request_uri : bool := %v.", directorOK)
 	g.line("(* calls of setProxyDirector inside newReverseProxy *)")
 	g.line("Definition director_installations : nat := %d.", installed)
+	// the cipher that seals server-side store entries: nothing else authenticates a stored value, so it must be the
+	// authenticated one (AES-GCM), not the malleable stream mode the signed cookies use
+	const ticketRel = "pkg/sessions/persistence/ticket.go"
+	gcm, other := 0, 0
+	if fd := funcDecl(ticketRel, "ticket.makeCipher"); fd != nil {
+		ast.Inspect(fd, func(n ast.Node) bool {
+			if c, ok := n.(*ast.CallExpr); ok {
+				switch calleeName(c) {
+				case "encryption.NewGCMCipher":
+					gcm++
+				case "encryption.NewCFBCipher", "encryption.NewBase64Cipher":
+					other++
+				}
+			}
+			return true
+		})
+	} else {
+		fail("%s: ticket.makeCipher not found", ticketRel)
+	}
+	g.line("")
+	g.line("(* ticket.makeCipher builds exactly one cipher and it is encryption.NewGCMCipher *)")
+	g.line("Definition ticket_cipher_is_gcm : bool := %v.", gcm == 1 && other == 0)
 	g.write("Surface.v")
 }
 
